@@ -22,6 +22,8 @@ FIELD_KINDS = {
     "RegEx": ("a+b", 3, ["ab", "aab"], ["b", "ba"], False),
     "Text": ("", 3, ["x", "yz", "abc"], ["abcd"], False),
 }
+#: accepted Text values made of a byte order mark, Unicode line / paragraph separators, NEL and a non-ASCII letter
+EXOTIC_TEXT = ["\ufeffx", "a\u2028", "\u0085", "\u00e9", "x\u2029y"]
 KIND_NAMES = sorted(FIELD_KINDS)
 OPERATORS = {"<": operator.lt, "<=": operator.le, "==": operator.eq, "!=": operator.ne, ">": operator.gt,
              ">=": operator.ge}
@@ -91,7 +93,18 @@ def draw_cell(rng, field, fmt, bad_rate=0.15):
         return rng.choice(pool)
     if field.get("empty") and roll < bad_rate + 0.1:
         return ""
+    if field["type"] == "Text" and "good" not in field and rng.random() < 0.08:
+        # characters that are data like any other although some tools give them a meaning of their own
+        return rng.choice(EXOTIC_TEXT)
     return rng.choice(good)
+
+
+def _encodable(text, encoding):
+    try:
+        text.encode(encoding)
+        return True
+    except UnicodeEncodeError:
+        return False
 
 
 def draw_table(rng, spec, max_rows=8, bad_rate=0.15, ragged_rate=0.08):
@@ -99,6 +112,9 @@ def draw_table(rng, spec, max_rows=8, bad_rate=0.15, ragged_rate=0.08):
     table = []
     for _ in range(rng.randint(0, max_rows)):
         row = [draw_cell(rng, field, fmt, bad_rate) for field in spec["fields"]]
+        if spec.get("encoding", "utf-8") != "utf-8":
+            # only what the file's encoding can store
+            row = [cell if cell not in EXOTIC_TEXT or _encodable(cell, spec["encoding"]) else "x" for cell in row]
         if fmt != "fixed" and rng.random() < ragged_rate:
             roll = rng.random()
             if roll < 0.15 and fmt in ("delimited", "ods"):
